@@ -260,11 +260,11 @@ def minimise_and_write(prop, tier, item):
             raise HarnessError(f"violation {target} of seed {item['seed']} does not reproduce in-process")
     os.makedirs(os.path.join(VERIF, "replays"), exist_ok=True)
     # the tree is part of the name: checks of different trees may run at the same time
-    path = os.path.join(VERIF, "replays", f"{prop}-{item['seed']}-{tree_id()[:8]}.json")
+    path = os.path.join(VERIF, "replays", f"{prop}-{item['seed']}-{tree_id()[:8]}{'-O' if sys.flags.optimize else ''}.json")
     rec = {"engine": engine, "property": prop, "seed": item["seed"], "index": item["index"], "tier": tier,
            "config": c2, "ops": gen.to_json(o2), "violation": json.loads(json.dumps(vm, default=repr)),
            "class": list(target), "digest": w.digest(), "original_len": len(ops), "minimised_len": len(o2),
-           "shrink_executions": nexec, "tree": tree_id()}
+           "shrink_executions": nexec, "tree": tree_id(), "pyopt": bool(sys.flags.optimize)}
     tmp_path = f"{path}.{os.getpid()}.tmp"
     with open(tmp_path, "w") as f:
         json.dump(rec, f, indent=1, default=repr)
@@ -291,6 +291,10 @@ def tree_id():
 def replay(path, quiet=False):
     with open(path) as f:
         rec = json.load(f)
+    if rec.get("pyopt") and not sys.flags.optimize:
+        # found with `python -O` (assert statements compiled away): replay it that way
+        os.execv(sys.executable, [sys.executable, "-O", os.path.join(VERIF, "check"), "replay", path]
+                 + (["--quiet"] if quiet else []))
     cfg, ops = rec["config"], gen.from_json(rec["ops"])
     vs, w = execute(rec["engine"], cfg, ops, rec.get("property"))
     target = tuple(rec["class"])
@@ -309,6 +313,39 @@ def replay(path, quiet=False):
     return 0
 
 
+def pyopt_subcheck(prop, tier, base, nruns, wall, jobs):
+    """A share of the runs under `python -O` (an interpreter mode like any other: assert statements
+    are compiled away, __debug__ is False).  A child interpreter runs the same check on other
+    seeds; its VIOLATION lines and replay files (which replay under -O) are passed on."""
+    if sys.flags.optimize or os.environ.get("VERIF_NO_PYOPT"):
+        return None
+    n = max(nruns // 8, 50)
+    env = dict(os.environ, VERIF_NO_EVIDENCE="1", VERIF_SEED=str(base + 1), VERIF_TIER=tier)
+    env.pop("VERIF_RUNS", None)
+    env.pop("VERIF_BUDGET_S", None)
+    cmd = [sys.executable, "-O", os.path.join(VERIF, "check"), prop, "--tier", tier, "--runs", str(n),
+           "--wall", str(max(wall / 5, 5)), "--jobs", str(jobs)]
+    try:
+        r = subprocess.run(cmd, env=env, capture_output=True, text=True, timeout=wall + 600)
+    except subprocess.TimeoutExpired:
+        raise HarnessError("the python -O sub-check did not come back")
+    if r.returncode == 2 or r.returncode not in (0, 1):
+        raise HarnessError("python -O sub-check: " + (r.stdout[-600:] + r.stderr[-300:]))
+    out = {"rc": r.returncode, "lines": [], "replays": [], "runs": 0}
+    for ln in r.stdout.splitlines():
+        if ln.startswith("VIOLATION"):
+            out["lines"].append(ln)
+            out["replays"].append(ln.split("replay=")[1].strip())
+        elif ln.startswith("  class="):
+            out["lines"].append(ln + "  [python -O]")
+        elif " runs=" in ln and "->" in ln:
+            try:
+                out["runs"] = int(ln.split(" runs=")[1].split()[0])
+            except ValueError:
+                pass
+    return out
+
+
 def check(prop, tier, seed=None, nruns=None, wall=None, jobs=None):
     t0 = time.time()
     engine = engine_of(prop)
@@ -318,6 +355,7 @@ def check(prop, tier, seed=None, nruns=None, wall=None, jobs=None):
     jobs = jobs or int(os.environ.get("VERIF_JOBS", 0)) or min(16, os.cpu_count() or 4)
     print(f"[{prop}] engine={engine} tier={tier} VERIF_SEED={base} runs<={nruns} wall<={wall:.0f}s jobs={jobs} tree={tree_id()}")
     agg = batch(prop, tier, base, nruns, wall, jobs)
+    opt = pyopt_subcheck(prop, tier, base, nruns, wall, jobs)
     known = load_known()
     new, knownhits = [], {}
     for item in sorted(agg["found"], key=lambda x: x["index"]):
@@ -350,7 +388,13 @@ def check(prop, tier, seed=None, nruns=None, wall=None, jobs=None):
         lines.append(f"  class={list(target)} (a finding recorded as fixed reproduces again)")
         replay_paths.append(path)
         rc_ = 1
-    write_evidence(prop, tier, base, agg, time.time() - t0, len(new) + len(regress), list(knownhits), replay_paths)
+    if opt and opt["rc"] == 1:
+        lines.extend(opt["lines"])
+        replay_paths.extend(opt["replays"])
+        rc_ = 1
+    agg["stats"]["runs_under_python_O"] = opt["runs"] if opt else 0
+    write_evidence(prop, tier, base, agg, time.time() - t0, len(new) + len(regress) + (len(opt["replays"]) if opt else 0),
+                   list(knownhits), replay_paths)
     for ln in lines:
         print(ln)
     st = agg["stats"]
@@ -381,7 +425,8 @@ def write_evidence(prop, tier, base, agg, wall, nviol, knownhits, replay_paths):
     probes = {k: n for k, n in sorted(st.items()) if k.startswith(("probe_", "ctx_", "matrix_mode_", "foreign_", "c02_",
                                                                    "create_", "decoded_", "auto_", "bulk_", "capture_", "reputs", "copies", "reject_all_points",
                                                                    "edit_restore_", "badtext_", "ops_while_", "assign_as_", "same_size_",
-                                                                   "read_twice", "observer_", "allow_write_inside", "unstamped_"))}
+                                                                   "read_twice", "observer_", "allow_write_inside", "unstamped_", "runs_under_", "odd_blocks_",
+                                                                   "replace_by_", "enter_stopped", "not_judged", "bad_item_with", "create_other"))}
     rule = ("cases = simulated runs: a seeded swarm configuration (buffer size, short raw I/O, allocator poison, time zone, "
             "clock epoch/steps) plus an explicit operation list executed against the real library on the simulated disk; "
             "a run is counted non-trivial when it performed >= 2 successful state-changing operations"
